@@ -991,4 +991,30 @@ impl<K: KdfTrait> Drop for ExporterSecret<K> {
         seq_buf.0[i] |= base_nonce.0[i];
     }
     seq_buf""")]),
+    # ------------------------------------------------------------------ C12 value flow
+    dict(name='c12-x25519-pubkey-high-bit-masked', expect=[('C12', 'R12.6')],
+         note='X25519 public keys with bit 255 set re-serialize differently (and two encodings alias)',
+         edits=[(X25519, """        arr.copy_from_slice(encoded);
+        Ok(PublicKey(x25519_dalek::PublicKey::from(arr)))""", """        arr.copy_from_slice(encoded);
+        arr[31] &= 0x7f;
+        Ok(PublicKey(x25519_dalek::PublicKey::from(arr)))""")]),
+    dict(name='c12-tag-write-exact-reversed', expect=[('C12', 'R12.6')],
+         note='AeadTag::write_exact reverses the tag bytes after copying (to_bytes/from_bytes no longer round-trip)',
+         edits=[(AEAD, """        buf.copy_from_slice(&self.0);
+    }""", """        buf.copy_from_slice(&self.0);
+        buf.reverse();
+    }""")]),
+    dict(name='c12-x25519-privkey-writes-pubkey-bytes', expect=[('C12', 'R12.6')],
+         note='PrivateKey::write_exact serializes something other than the scalar',
+         edits=[(X25519, """        enforce_outbuf_len::<Self>(buf);
+
+        buf.copy_from_slice(self.0.as_bytes());
+    }
+}
+impl Deserializable for PrivateKey {""", """        enforce_outbuf_len::<Self>(buf);
+
+        buf.copy_from_slice(x25519_dalek::PublicKey::from(&self.0).as_bytes());
+    }
+}
+impl Deserializable for PrivateKey {""")]),
 ]
